@@ -564,6 +564,12 @@ FIXED += [
      json.loads('{"tables": [{"name": "t0", "cols": [["id", "int64"], ["x", "datetime"], ["b", "bool"]], "rows": [[1, null, false], [2, null, false], [3, null, false], [4, null, false], [5, null, true], [6, null, false], [7, null, false]]}], "steps": [{"out": "v0", "verb": "source", "table": "t0"}], "result": "v0", "validate": "check", "mode": "reject", "offender": {"kind": "verb", "which": "rename_dup_new", "expect": "ValueError", "anycol": ["col", {"v": "v0", "n": "id"}]}}')),
 ]
 
+FIXED += [
+    ('F80-round-int-negative-decimals-float', 'C12', 'round of an integer expression to negative decimals returns an integer',
+     'x.round(-2) of an Int column has the static type Int but was exported as Float64 on Polars and SQLite (divide, round, multiply); found while confirming the seeded change C01-m12: the generators only used non-negative decimals',
+     json.loads('{"result": "v1", "steps": [{"out": "v0", "table": "t0", "verb": "source"}, {"in": "v0", "items": [["r", ["fn", "round", [["col", {"c": "a"}], ["lit", -2]], {}]]], "out": "v1", "verb": "mutate"}], "tables": [{"cols": [["id", "int64"], ["a", "int64"]], "name": "t0", "rows": [[1, 1351], [2, -1251], [3, null], [4, 26]]}], "validate": "check"}')),
+]
+
 
 def main():
     log = subprocess.run(["git", "-C", "/repo", "log", "--format=%h %s"], capture_output=True, text=True).stdout.splitlines()
